@@ -220,6 +220,17 @@ func exclusiveC10(c *Ctx) {
 					pickS(ok, "the store is reachable only through e.work[key] == item", "a call can register itself on an item that is no longer the map's entry for the key: it could be answered by an execution begun before it, or run concurrently with another execution for the key"), s)
 			}
 		}
+		// the start-style fast path: returns nil only after having attached (count++) to a valid item
+		cnts := an.FieldStores(q.fn, "exclusiveItem.count")
+		for _, r := range returnsOf(q.fn) {
+			vs := c.retVals(r, 0)
+			if !allNil(vs) {
+				continue
+			}
+			okr := len(cnts) > 0 && P.Before(q.fn, an.In(cnts), r) && q.onlyViaEdge(r, eqIfs[0], ts)
+			q.add("PATH", "a Start returns early only after it attached to the item currently in the map", okr,
+				pickS(okr, "the nil return is dominated by count++ and reached only through e.work[key] == item", "a start-style call can return without having attached to a valid item: no execution would follow that Start"), r)
+		}
 		for _, s := range an.FieldStores(q.fn, "exclusiveItem.count") {
 			if ld, isL := isLoad(s.(*ssa.Store).Addr.(*ssa.FieldAddr).X); isL {
 				base := P.PathAtom(P.Eval(nil, ld))
